@@ -58,8 +58,8 @@ int main(int argc, char **argv)
              "destination = heap block of exactly 'capacity' bytes pre-filled with 0xA5, under ASan",
              CF.K, CF.nalpha, (CF.with_noenc || CF3.K) ? ", plus each of 6 calls that have no encoding (length > INT32_MAX, SIZE_MAX, NULL sources, raw lengths that wrap the counter) inserted at every position of every sequence of <= 3 operations" : "");
     snprintf(bound + strlen(bound), sizeof bound - strlen(bound), "; every sequence of <= %d operations over 7 operations incl. string_with_len(40000) and bytes(32768) x every capacity within 3 of a piece boundary", CF4.K);
-    snprintf(bound + strlen(bound), sizeof bound - strlen(bound), "; single parametric operations (alone and between two one-byte tokens) x every capacity: integer +-2^k+d (k<64, |d|<=2), 10 double bit "
-             "patterns, string_with_len / bytes / write_string / write_raw of every length 0..%d, and of 2047, 2048, 4608, 4863, 32767..32769, 65535..65537, 65794, 70000 bytes at every "
+    snprintf(bound + strlen(bound), sizeof bound - strlen(bound), "; single parametric operations (alone and between two one-byte tokens) x every capacity: integer +-2^k+d (k<64, |d|<=2) and 1020 sparse byte patterns (each byte 0x00 or a fill), 10 double bit "
+             "patterns and the same sparse patterns, string_with_len / bytes / write_string / write_raw of every length 0..%d, and of 2047, 2048, 4608, 4863, 32767..32769, 49152, 65535..65537, 65792, 65794, 70000, 98304, 131071..131073, 196608 bytes at every "
              "capacity within 3 of a piece boundary", vf_g.thorough ? 2100 : 400);
     if (CF2.K) snprintf(bound + strlen(bound), sizeof bound - strlen(bound), "; additionally every sequence of <= %d operations over a 16-operation sub-alphabet x every capacity", CF2.K);
     static const char *const assumptions[] = {
